@@ -64,7 +64,7 @@ class LinChecker {
   bool debug = false;        // replay -v: print where the search gets stuck
   mutable int dbg_left = 60, dbg_steps = 400;
 
-  static const int* destruction_order() { static const int o[NFN] = {FN_P, FN_V, FN_Z, FN_K, FN_S, FN_U, FN_C, FN_R, FN_G, FN_F2, FN_F1}; return o; }
+  static const int* destruction_order() { static const int o[NFN] = {FN_CF, FN_P, FN_V, FN_Z, FN_K, FN_S, FN_U, FN_C, FN_R, FN_G, FN_F2, FN_F1}; return o; }
 
   std::vector<SubOp> subops_of(int i, bool use_cs) const {
     const TOp& o = ops[static_cast<size_t>(i)];
